@@ -270,6 +270,15 @@ def r6_coupling(idx, r):
     cc = idx.method(OP, "_checkTightCouplingConvergence")
     rets = [n for n in walk_local(cc.node) if isinstance(n, ast.Return)]
     r.require(len(rets) == 1 and norm(rets[0].value) == "all(converged)", "all-couplers", cc, msg="converged means ALL couplers converged")
+    evs = [c for c in iter_calls(cc.node) if call_attr(c) == "isConverged"]
+    loopc = next((n for n in walk_local(cc.node) if isinstance(n, ast.For)), None)
+    if len(evs) != 1 or loopc is None:
+        raise AnchorMissing("_checkTightCouplingConvergence: one isConverged(...) inside the loop over the interfaces")
+    condc = [(norm(t), p) for t, p in path_conditions(ast.Module(body=loopc.body, type_ignores=[]), evs[0])]
+    extra = [c for c in condc if c[0] not in ("coupler is not None", "interface.coupler is not None", "coupler is None", "interface.coupler is None")]
+    r.require(not extra, "every-coupler-re-evaluated-each-iteration", cc, node=evs[0],
+              msg=f"a coupler is only re-evaluated when {extra}: one that converged in an earlier iteration and was disturbed since is still counted as converged, so the loop stops early")
+    r.require(any(isinstance(x, ast.Call) and call_attr(x) == "getTightCouplingValue" for x in ast.walk(evs[0])), "coupler-sees-the-current-value", cc, node=evs[0], msg="isConverged receives the interface's current coupling value")
 
 
 def r7_node_arithmetic(idx, r):
@@ -363,6 +372,14 @@ def r8_toggles(idx, r):
             attr = first.body[0].value.attr
             sets = [s_ for s_ in iter_stores(f.node) if s_.chain == f"self.{attr}" and s_.value is not None and norm(s_.value) == "flag"]
             r.require(bool(sets), f"Interface.{name}:stores-flag", f, msg=f"{name}(flag) must store the flag into self.{attr}")
+    # the two toggles are independent: each writes its own flag only
+    own = {"enabled": "_enabled", "bolForce": "_bolForce"}
+    for name, mine in own.items():
+        f = iface.methods[name]
+        foreign = [s_ for s_ in iter_stores(f.node) if s_.chain and s_.chain.startswith("self.") and s_.attr != mine]
+        r.require(not foreign, f"Interface.{name}:writes-only-its-own-flag", f, node=foreign[0].stmt if foreign else None,
+                  msg=f"{name}() also writes `{foreign[0].chain if foreign else ''}`: an interface attached with bolForce=True and disabled afterwards loses its forced interactBOL "
+                      "(getActiveInterfaces admits a disabled interface at BOL exactly when bolForce() is set)")
     ai = idx.method(OP, "addInterface")
     calls = {norm(c) for c in iter_calls(ai.node)}
     bf = next((c for c in iter_calls(ai.node) if norm(c) == "interface.bolForce(bolForce)"), None)
@@ -429,6 +446,33 @@ def r10_zero_divisors(idx, r):
         raise AnalysisError(f"only {n} divisions by burn steps / availability found in _getStepAndCycleLengths")
 
 
+def r11_settings_not_truth_tested(idx, r):
+    """The cycle-history helpers read numeric settings for which 0 is a legitimate value (availabilityFactor 0.0 = a decay-only cycle,
+    burnSteps 0).  'Unset' is None (or an empty list): a bare truth test or an `or`-default on cs[...] turns 0 into the default."""
+    m = idx.module(UT)
+    n = 0
+    for f in m.all_funcs():
+        if "cs" not in f.params():
+            continue
+        n += 1
+        bad = []
+        for nd in ast.walk(f.node):
+            tests = []
+            if isinstance(nd, (ast.If, ast.IfExp, ast.While)):
+                tests.append(nd.test)
+            elif isinstance(nd, ast.BoolOp):
+                tests.extend(nd.values[:-1] if isinstance(nd.op, ast.Or) else nd.values)
+            elif isinstance(nd, ast.UnaryOp) and isinstance(nd.op, ast.Not):
+                tests.append(nd.operand)
+            for t in tests:
+                if isinstance(t, ast.Subscript) and isinstance(t.value, ast.Name) and t.value.id == "cs":
+                    bad.append(t)
+        r.require(not bad, f"{f.qualname}:settings-compared-with-None", f, node=bad[0] if bad else None,
+                  msg=f"`{norm(bad[0]) if bad else ''}` is evaluated for truth: a setting of 0 (e.g. availabilityFactor: 0.0, a decay-only history) is silently replaced by the default")
+    if n < 8:
+        raise AnalysisError(f"only {n} settings-reading helpers found in armi.utils")
+
+
 def run(idx, chk):
     chk.explanation = (
         "C15: the operator's main, cycle and node loops, _interactAll, the six interactAllX entry points, getActiveInterfaces, the tight "
@@ -453,3 +497,5 @@ def run(idx, chk):
                  necessary="coupled iterations run until every coupler has converged")
     chk.run_rule("R15.10", "every division by burn steps / availability factor in the step-length arithmetic excludes zero on its path", lambda r: r10_zero_divisors(idx, r), floor=3,
                  necessary="step lengths are defined for ANY cycle history the settings admit (the schema admits 0 for both)")
+    chk.run_rule("R15.11", "numeric settings read by the cycle-history helpers are compared with None, never evaluated for truth", lambda r: r11_settings_not_truth_tested(idx, r), floor=8,
+                 necessary="step lengths sum to availability x cycle length for every admitted history, including availability 0")
